@@ -214,6 +214,8 @@ fn run_queue(cfg: &QlCfg, eseed: u64, idx: u64, st: &mut QlStats) {
     drop(q);
     drop(collector);
     st.execs += 1;
+    mon::EXECS_DONE.fetch_add(1, SeqCst);
+    mon::NONTRIVIAL_DONE.fetch_add(1, SeqCst);
     st.cut += es.cut as u64;
     st.steps += es.steps;
     st.switches += es.switches;
@@ -467,6 +469,8 @@ fn run_list(cfg: &QlCfg, eseed: u64, idx: u64, st: &mut QlStats) {
         }
     }
     st.execs += 1;
+    mon::EXECS_DONE.fetch_add(1, SeqCst);
+    mon::NONTRIVIAL_DONE.fetch_add(1, SeqCst);
     st.cut += es.cut as u64;
     st.steps += es.steps;
     st.switches += es.switches;
